@@ -55,9 +55,12 @@ TAB == 9
 BQT == 96      \* `
 
 (* The special alphabet of C10:  ' " \ newline tab % { } $ # - / * ; ` ( )   *)
-(* e-acute  U+1D11E  a  space                                              *)
+(* e-acute (Latin-1)  U+0414 (BMP, not Latin-1)  U+1D11E (astral)  a space *)
 Alphabet == {39, 34, 92, 10, 9, 37, 123, 125, 36, 35, 45, 47, 42, 59, 96,
-             40, 41, 233, 119070, 97, 32}
+             40, 41, 233, 1044, 119070, 97, 32}
+(* Characters that only occur in hand-picked idioms (%s %d {0} {1} ...),   *)
+(* not in the exhaustive enumeration:  s d 0 1 U+2192                      *)
+ExtraChars == {115, 100, 48, 49, 8594}
 
 -----------------------------------------------------------------------------
 (* Lexical profiles.  A profile says which quote closes the literal,       *)
